@@ -36,7 +36,7 @@ CHECKS = {
  "C08": ("enumerator", "exhaustive enumeration of all 2^w bit patterns per data field (w<=30 quick, w<=32 thorough) with a decode->encode identity oracle through an own bit reader/writer (hook), encoding over 0xFF- and 0x00-filled buffers",
          "Exhaustive for every field up to the width bound (quick 30 bits: 266 of 309 fields, thorough 32 bits: 300 of 309 fields); boundary windows, one-hot and large random samples for wider fields backed by the error-bound argument in DESIGN.md; hand-written bias codecs enumerated completely through frames.",
          "needs the hook; the list of sign-magnitude fields is pinned from the standard", "§3 C08"),
- "C11": ("sampler", "stratified generation of real inputs between adjacent grid points per float field, oracle = neighbour membership + half-step bound with derived float slack + monotonicity (hook); bias lists in arbitrary caller order through messages",
+ "C11": ("sampler", "stratified generation of real inputs between adjacent grid points per float field, oracle = neighbour membership + half-step bound with derived float slack + monotonicity (hook); bias lists in arbitrary caller order and position independence inside full list messages, both through messages; run against the crate built with and without its std feature",
          "Generated-input exploration over all float-typed fields: grid indexes at range ends, zero, powers of two and random; 16 interpolation points per interval including both sides of the half step; bias lists in caller order; position independence inside full-length list messages. Tolerance derived from the rounding steps, not tuned.",
          "needs the hook; grid = decoder image of consecutive patterns", "§3 C11"),
  "C02": ("generators+enumerator", "structure-aware frame generation (golden, the crate's generator, synthesiser incl. hostile MSM/bias/text/count structures, havoc mutation) with a totality/finiteness oracle in catch_unwind, both build profiles",
@@ -60,7 +60,7 @@ CHECKS = {
  "C15": ("enumerator", "enumeration of every (type, n<=capacity), every over-capacity count value and every truncation length; oracle = wire count via pinned layout + round-trip equality + Corrupt",
          "Enumeration, complete over element counts, over-capacity count values and truncation lengths for 39 list/string-bearing types; element contents sampled from decoded vectors.",
          "count-field layouts pinned in the harness", "§3 C15"),
- "C16": ("sampler", "typed generation of bias lists (distinct pairs scattered, 1..64 satellites, up to 390 entries, on/off grid) with a multiset/grouping oracle, plus hostile frames with a capacity oracle; thorough tier adds a coverage-guided libFuzzer target (bias_lists) with the same oracle",
+ "C16": ("sampler", "typed generation of bias lists (distinct pairs scattered, 1..64 satellites, up to 390 entries, on/off grid) with a multiset/grouping oracle, plus hostile frames with a capacity oracle; thorough tier adds a coverage-guided libFuzzer target (bias_lists) with the same oracle; the generated check runs against the crate built with and without its std feature",
          "Generated-input exploration of the three hand-written bias list codecs under and outside the stated precondition; bias grid taken from the decoder's image of all patterns.",
          "SSR signal tables pinned in the harness", "§3 C16"),
  "C17": ("proptest", "property-based testing (proptest string strategies with shrinking) against reference char/byte mappings, message round trips and 1029 frames with arbitrary text bytes; thorough tier adds a coverage-guided libFuzzer target (text_fields) with the same oracles",
@@ -70,7 +70,7 @@ CHECKS = {
          "Exhaustive over the Latin-1 descriptor space and over all triples of recognised descriptors; other characters and mixed triples sampled.",
          "signal tables typed from RTCM 10403.3 in the harness", "§3 C18"),
  "C19": ("configuration enumerator", "enumeration of build configurations (every single feature, empty, all_msgs without std, serde variants) with a build oracle and a differential decode oracle against the full build on generated frames",
-         "Exhaustive over the single-feature configurations for the build half (cargo check without default features => #![no_std]) and for the behavioural half (driver linked against the single-feature build decodes a generated frame file; own type identical to the full build, everything else MsgNotSupported).",
+         "Exhaustive over the single-feature configurations for the build half (cargo check without default features => #![no_std]) and for the behavioural half (driver linked against the single-feature build decodes a generated frame file; own type identical to the full build - rendering of the decoded message and the bytes of encoding it again -, everything else MsgNotSupported; the same through that build's MsgFrameIter and chunked caller loop).",
          "no bare-metal target installed: no_std is checked for the host triple; dependencies pinned by /repo/Cargo.lock", "§3 C19"),
 }
 PENDING = {}
@@ -94,7 +94,7 @@ man = {
     "kind_free_text": "Rust harness (path dependency on /repo): proptest 1.11 used as a library (sharded runners, fixed seeds, shrinking), exhaustive/seeded enumerators on rayon, independent reference models (CRC-24Q, bit reader/writer, frame predicate, stream scanner, serde value tree)"},
  ],
  "checks": [],
- "notes": "All commands run from /verif. ./run <id> quick|thorough rebuilds the harness against /repo's working tree with the hook cfg on (cargo fingerprints the path dependency), replays the saved failing inputs of earlier findings (regressions/<id>/), runs the generated-input check and, in the thorough tier, the libFuzzer campaigns (fuzz/campaign). VERIF_SEED seeds every generator. Exit 0 held, 1 VIOLATION line printed, 2 infrastructure/inconclusive (build failure, watchdog, non-reproducing fuzz artefact) - never a violation. known_findings.txt: nine findings, all fixed in /repo by fix: commits, none open. seeded/: about a hundred independently written changes (five rounds) that break a property while passing the test suite, with the checks that catch them (DESIGN.md section 10); ./run_noevidence is the evidence-free runner used with them.",
+ "notes": "All commands run from /verif. ./run <id> quick|thorough rebuilds the harness against /repo's working tree with the hook cfg on (cargo fingerprints the path dependency), replays the saved failing inputs of earlier findings (regressions/<id>/), runs the generated-input check and, in the thorough tier, the libFuzzer campaigns (fuzz/campaign). VERIF_SEED seeds every generator. Exit 0 held, 1 VIOLATION line printed, 2 infrastructure/inconclusive (build failure, watchdog, non-reproducing fuzz artefact) - never a violation. known_findings.txt: nine findings, all fixed in /repo by fix: commits, none open. seeded/: 139 independently written changes (seven rounds) that break a property while passing the test suite, with the checks that catch them (DESIGN.md section 10); ./run_noevidence is the evidence-free runner used with them.",
  "not_applicable": [],
 }
 for cid in sorted(CHECKS):
